@@ -1,4 +1,4 @@
-mod rng; mod util; mod c17; mod oplist; mod ops; mod amod; mod c03; mod env; mod sigs; mod gen; mod gen_ir_print; mod irdump; mod body; mod c15; mod wmodcoq; mod genattr; mod modrun; mod oracles; mod dbg; mod c18; mod c11; mod c05;
+mod rng; mod util; mod c17; mod oplist; mod ops; mod amod; mod c03; mod env; mod sigs; mod gen; mod gen_ir_print; mod irdump; mod body; mod c15; mod wmodcoq; mod genattr; mod modrun; mod oracles; mod dbg; mod c18; mod c11; mod c05; mod c10;
 fn main() {
     util::quiet_panics();
     let args: Vec<String> = std::env::args().collect();
@@ -12,6 +12,7 @@ fn main() {
         Some("dbg") => dbg::main(&args[2..]),
         Some("c11") => c11::main(&args[2..]),
         Some("c05") => c05::main(&args[2..]),
+        Some("c10") => c10::main(&args[2..]),
         Some("c18") => c18::main(&args[2..]),
         _ => { eprintln!("usage: vh <subcommand> ..."); std::process::exit(2) }
     }
